@@ -99,6 +99,13 @@ Proof. exact refuted_casefold. Qed.
 Theorem C06_refuted_assocname : exists M order, wfM M = true /\ topo M order /\ wf_table_names_unique (gen M order) = false.
 Proof. exact refuted_assocname. Qed.
 
+(* C06-i: the order ORMatic sorts by (direct bases only) admits emitting a derived DAO before its parent DAO when an
+   unmapped class sits between them; with a parents-first order the same model is fine *)
+Theorem C06_refuted_unmappedorder : exists M order, wfM M = true /\ inF M = true /\ (forall c, In c order <-> In c M)
+  /\ NoDup (map c_name order) /\ direct_parents_first M [] order = true
+  /\ wf_bases_first [] (s_tables (gen M order)) = false.
+Proof. exact refuted_unmappedorder. Qed.
+
 (* non-vacuity: a model with inheritance, a redeclared inherited field, references, collections and a private field is in
    the grammar and in F; its schema is statically well-formed and is read back exactly as the Spec says *)
 Example C06_nonvacuous : wfM M_example = true /\ inF M_example = true /\ topo M_example M_example
@@ -124,3 +131,4 @@ Print Assumptions C06_refuted_pkname.
 Print Assumptions C06_refuted_discname.
 Print Assumptions C06_refuted_casefold.
 Print Assumptions C06_refuted_assocname.
+Print Assumptions C06_refuted_unmappedorder.
